@@ -254,13 +254,150 @@ fn run_related_history(rng: &mut Rng, sc: &Scenario, vm: &mut Vm, idx: u64, resi
     }
 }
 
+/// "Probe" script: makes leftover interpreter state visible. It logs freshly allocated
+/// heap bytes (two-step allocation of `a` then `b` bytes: the second step re-allocates the
+/// heap buffer when the retained one is shorter), logs `n` freshly extended stack bytes,
+/// then fills both regions with 0xff (the residue the next user must not see), and twice
+/// calls a small reader contract that reads and rewrites one storage slot and logs the gas
+/// it has left (a warm slot cache changes the gas).
+fn probe_code(a: u32, b: u32, n: u32, revert: bool) -> Vec<u8> {
+    use fuel_asm::{
+        GTFArgs,
+        RegId,
+        op,
+    };
+    let fill = |code: &mut Vec<fuel_asm::Instruction>, ptr: u8, words: u32| {
+        // r15 cursor, r16 counter, r17 = 0xff..ff
+        code.push(op::move_(0x15, ptr));
+        code.push(op::movi(0x16, words.max(1)));
+        code.push(op::not(0x17, RegId::ZERO));
+        code.push(op::sw(0x15, 0x17, 0));
+        code.push(op::addi(0x15, 0x15, 8));
+        code.push(op::subi(0x16, 0x16, 1));
+        code.push(op::jnzb(0x16, RegId::ZERO, 2));
+    };
+    let mut code = vec![
+        op::gtf_args(0x14, RegId::ZERO, GTFArgs::ScriptData),
+        op::movi(0x10, a),
+        op::aloc(0x10),
+        op::movi(0x10, b),
+        op::aloc(0x10),
+        op::movi(0x12, a + b),
+        op::logd(RegId::ZERO, RegId::ZERO, RegId::HP, 0x12),
+    ];
+    fill(&mut code, RegId::HP.to_u8(), (a + b) / 8);
+    code.extend([op::cfei(n), op::movi(0x12, n), op::sub(0x11, RegId::SP, 0x12), op::logd(RegId::ZERO, RegId::ZERO, 0x11, 0x12)]);
+    fill(&mut code, 0x11, n / 8);
+    code.push(op::cfsi(n));
+    for _ in 0..2 {
+        code.push(op::movi(0x13, 20_000));
+        code.push(op::call(0x14, RegId::ZERO, 0x14, 0x13));
+        code.push(op::log(RegId::GGAS, RegId::CGAS, RegId::RET, RegId::RETL));
+    }
+    // a revert half of the time: everything above is rolled back by a client
+    code.push(if revert { op::rvrt(RegId::ONE) } else { op::ret(RegId::ONE) });
+    code.into_iter().collect()
+}
+
+/// Turns the scenario's transaction into a probe (reader contract installed in its world).
+/// Returns the probe's parameters.
+fn make_probe(rng: &mut Rng, sc: &mut Scenario) -> (u32, u32, u32) {
+    use fuel_asm::{
+        RegId,
+        op,
+    };
+    // the slot key is the 32 bytes at address 32 (the base asset id): the same for every
+    // transaction of the chain (address 0 holds the transaction id)
+    let reader: Vec<u8> = vec![
+        op::movi(0x13, 32),
+        op::srw(0x10, 0x11, 0x13, 0),
+        op::log(0x10, 0x11, RegId::GGAS, RegId::CGAS),
+        op::addi(0x10, 0x10, 1),
+        op::sww(0x13, 0x11, 0x10),
+        op::srw(0x12, 0x11, 0x13, 0),
+        op::log(0x12, 0x11, RegId::GGAS, RegId::CGAS),
+        op::ret(RegId::ONE),
+    ]
+    .into_iter()
+    .collect();
+    let rid = sc.world.install_contract(reader, fuel_types::Salt::new(rng.arr()), vec![]);
+    let a = 8 * (1 + rng.below(25)) as u32;
+    let b = 8 * (12 + rng.below(750)) as u32;
+    let n = 8 * (1 + rng.below(500)) as u32;
+    let mut data = rid.as_ref().to_vec();
+    data.extend_from_slice(&[0u8; 16]);
+    sc.spec.script = probe_code(a, b, n, rng.bool());
+    sc.spec.data = data;
+    sc.spec.gas_limit = 2_000_000;
+    if !sc.spec.contracts.contains(&rid) {
+        sc.spec.contracts.push(rid);
+    }
+    sc.spec.variable_outputs = 0;
+    (a, b, n)
+}
+
+/// History for a probe target: the probe itself (or a related transaction) left in one of
+/// the ways a long-lived interpreter is left: completed, abandoned at a debugger stop in
+/// the middle, or ended by a storage error at the k-th access.
+fn run_probe_history(rng: &mut Rng, sc: &Scenario, vm: &mut Vm, idx: u64, residues: &mut Vec<&'static str>, abn: (u32, u32, u32)) {
+    let n = 1 + rng.below(3);
+    for k in 0..n {
+        let mut spec = sc.spec.clone();
+        // other sizes than the target's: the heap buffer the history leaves behind is
+        // usually longer than the target's first allocation and shorter than both
+        let total = 16 + 8 * rng.below((abn.0 + abn.1) as u64 / 8 + 12) as u32;
+        let a2 = 8 * (1 + rng.below((total / 8).max(2) as u64 - 1)) as u32;
+        let n2 = 8 * (1 + rng.below(700)) as u32;
+        spec.script = probe_code(a2.min(total - 8), total - a2.min(total - 8), n2, rng.bool());
+        let Ok(ready) = spec.ready(&sc.world, idx * 16 + k + 0x5000_0000) else { continue };
+        *vm.as_mut() = RecStorage::new(sc.world.storage.clone());
+        match rng.below(4) {
+            0 => {
+                let _ = guarded(|| vm.transact(ready).map(|s| *s.state()));
+                residues.push("probe:completed");
+            }
+            1 => {
+                vm.set_single_stepping(true);
+                let mut st = guarded(|| vm.transact(ready).map(|s| *s.state()));
+                // anywhere in the probe (the fill loops make up most of its steps), often in
+                // or after the reader calls at its end
+                let len = 4 * (total as u64 + n2 as u64) / 8 + 40;
+                let steps = if rng.bool() { len.saturating_sub(rng.below(40)) } else { rng.below(len) };
+                for _ in 0..steps {
+                    if matches!(st, Ok(Ok(ProgramState::RunProgram(_)))) {
+                        st = guarded(|| vm.resume());
+                    }
+                }
+                vm.set_single_stepping(false);
+                vm.clear_breakpoints();
+                residues.push("probe:abandoned-at-a-debugger-stop");
+            }
+            2 => {
+                {
+                    let st: &RecStorage = (*vm).as_ref();
+                    st.fail_at.set(Some(st.counter.get() + 1 + rng.below(14)));
+                }
+                let _ = guarded(|| vm.transact(ready).map(|s| *s.state()));
+                residues.push("probe:ended-by-a-storage-error");
+            }
+            _ => {
+                let mut r2 = vec![];
+                run_related_history(rng, sc, vm, idx, &mut r2);
+                residues.push("probe:after-related-transactions");
+            }
+        }
+    }
+}
+
 fn vm_case(cfg: &Cfg, worker: u64, idx: u64, rep: &mut Report) {
     let mut rng = Rng::derive(cfg.seed ^ (0x31 << 32), worker, idx);
     let mut w = Weights::default();
     w.storage = 12;
     w.call = 10;
     let o = ScenarioOpts { weights: w.clone(), contract_weights: w, ..Default::default() };
-    let sc = scenario::build(&mut rng, &o);
+    let mut sc = scenario::build(&mut rng, &o);
+    let probe = idx % 4 == 3;
+    let abn = if probe { make_probe(&mut rng, &mut sc) } else { (0, 0, 0) };
     let replay = replay_record(cfg.seed, 0x31, worker, idx, &sc);
     let Ok(ready) = sc.spec.ready(&sc.world, idx) else {
         rep.count("generated_tx_rejected_by_checks");
@@ -276,7 +413,10 @@ fn vm_case(cfg: &Cfg, worker: u64, idx: u64, rep: &mut Report) {
     // reuse
     let mut vm = new_vm(&sc.world);
     let mut residues = vec![];
-    if idx % 2 == 1 {
+    if probe {
+        run_probe_history(&mut rng, &sc, &mut vm, idx, &mut residues, abn);
+        rep.count("reuse_cases_with_probe_target");
+    } else if idx % 2 == 1 {
         run_related_history(&mut rng, &sc, &mut vm, idx, &mut residues);
         rep.count("reuse_cases_with_related_history");
     } else {
@@ -396,7 +536,7 @@ pub fn run(cfg: &Cfg) -> Report {
         }
         r
     });
-    rep.rule = "target transaction T (generated script + contracts) executed on a fresh interpreter vs on an interpreter+memory that first ran a history of 1..4 other generated transactions leaving residue (big heap, deep stack, frames then panic, warm storage-slot cache, many receipts, debugger left suspended, refused transaction), or - every second case - a history of 1..3 transactions over T's own world (same contracts, storage keys and assets; more contract inputs, shifted input layout, other owners; storage-, call- or introspection-heavy scripts that succeed, revert or panic); storage replaced by an identical clone of the world's before T; T twice on the same instance; predicates estimated/verified with fresh vs dirty memory. Compared: program state, receipts, output tx, storage fingerprint, all 64 final registers. class = (residue kinds in the history, end state of T)".into();
+    rep.rule = "target transaction T (generated script + contracts) executed on a fresh interpreter vs on an interpreter+memory that first ran a history of 1..4 other generated transactions leaving residue (big heap, deep stack, frames then panic, warm storage-slot cache, many receipts, debugger left suspended, refused transaction), or - every second case - a history of 1..3 transactions over T's own world (same contracts, storage keys and assets; more contract inputs, shifted input layout, other owners; storage-, call- or introspection-heavy scripts that succeed, revert or panic); every fourth case T is a hand-written probe (logs freshly allocated heap after a two-step allocation, freshly extended stack, the gas left around two reads/writes of one storage slot in a reader contract) after histories in which the probe was completed, abandoned at a debugger stop, or ended by an injected storage error; storage replaced by an identical clone of the world's before T; T twice on the same instance; predicates estimated/verified with fresh vs dirty memory. Compared: program state, receipts, output tx, storage fingerprint, all 64 final registers. class = (residue kinds in the history, end state of T)".into();
     rep.assume("all scenarios share the default consensus parameters, so the interpreter's parameters are those of T");
     rep.gate("reuse_cases", rep.counter("reuse_cases"), 500);
     rep.gate("predicate_reuse_cases", rep.counter("predicate_reuse_cases"), 100);
